@@ -17,7 +17,9 @@ from .serialization import (
     cell_to_parent,
     get_stride,
     is_first_child,
-    FIRST_HILBERT_RESOLUTION
+    FIRST_HILBERT_RESOLUTION,
+    HILBERT_START_BIT,
+    REMOVAL_MASK
 )
 from .cell_info import get_num_children
 
@@ -66,6 +68,21 @@ def uncompact(cells: List[int], target_resolution: int) -> List[int]:
     return result
 
 
+def _hierarchical_key(cell: int) -> int:
+    """
+    Sort key under which every cell is adjacent to its siblings.
+
+    Numeric order of the ids is hierarchical, except that resolution 0 cells store
+    the origin in their top 6 bits where all finer cells store 5 * origin + segment.
+    Map resolution 0 cells into the finer numbering so that they cannot sort
+    in between the siblings of another origin.
+    """
+    if get_resolution(cell) == 0:
+        origin_id = cell >> HILBERT_START_BIT
+        return ((5 * origin_id) << HILBERT_START_BIT) | (cell & REMOVAL_MASK)
+    return cell
+
+
 def compact(cells: List[int]) -> List[int]:
     """
     Compacts a set of A5 cells by replacing complete groups of sibling cells with their parent cells.
@@ -80,10 +97,10 @@ def compact(cells: List[int]) -> List[int]:
         return []
 
     # Single sort and dedup
-    current_cells = sorted(set(cells))
+    current_cells = sorted(set(cells), key=_hierarchical_key)
 
     # Compact until no more changes
-    # No re-sorting needed - parents maintain sorted order!
+    # No re-sorting needed - parents maintain hierarchical order!
     changed = True
     while changed:
         changed = False
